@@ -195,8 +195,53 @@ class ProcTracker:
         return {"flush": flush, "compact": compact}
 
 
+# Falsy values a store must keep apart from "absent".  Under `canon` the seven are pairwise different (0 == 0.0 == False in
+# Python, so values are compared by type and repr); a scenario uses each of them at most once per key, so every value written
+# to a key is still unique and reads stay attributable.
+FALSY_MAKERS = [lambda: 0, lambda: 0.0, lambda: False, lambda: "", lambda: (), lambda: [], lambda: {}]
+
+
+def make_value(op: dict, default: str):
+    fv = op.get("fv")
+    if fv is None:
+        return default
+    if isinstance(fv, bool) or not isinstance(fv, int) or not 0 <= fv < len(FALSY_MAKERS):
+        raise InvalidScenario("fv")
+    return FALSY_MAKERS[fv]()
+
+
+def canon(v):
+    """Hashable, type-exact stand-in for a stored value (None and the tombstone sentinel stay what they are)."""
+    if v is None or v is TOMB or (isinstance(v, str) and v):
+        return v
+    return ("value", type(v).__name__, repr(v))
+
+
+def check_fv_unique(pairs) -> None:
+    """pairs: iterable of (key id, fv or None); a falsy value may be written at most once per key in one scenario."""
+    seen = set()
+    for key, fv in pairs:
+        if fv is None:
+            continue
+        if (key, fv) in seen:
+            raise InvalidScenario("the same falsy value written twice to one key")
+        seen.add((key, fv))
+
+
+def assign_falsy(rng, ops, p=0.15, used=None, key_of=lambda o: o["k"]):
+    """Give a share of the put-like ops a falsy value, each of the seven at most once per key."""
+    used = used if used is not None else {}
+    for o in ops:
+        if rng.random() < p:
+            free = [i for i in range(len(FALSY_MAKERS)) if i not in used.setdefault(key_of(o), set())]
+            if free:
+                o["fv"] = rng.choice(free)
+                used[key_of(o)].add(o["fv"])
+    return used
+
+
 def norm(v):
-    return None if v is TOMB else v
+    return None if v is TOMB else canon(v)
 
 
 def sst_lookup(sst, key):
